@@ -77,6 +77,11 @@ def enum_cases():
         for raw in range(0, 4):
             e1 = [([cmp("MODE", "==", 0)], 16), ([cmp("MODE", ">=", 1)], 24), ([cmp("LEN", "==", 2, False)], 8)]
             e2 = [([cmp("LEN", "==", 2, False)], 8), ([cmp("MODE", ">=", 1), cmp("LEN", "<", 3)], 24)]
+            # a looked-up length of zero is a length like any other (an empty binary field), not "no match"
+            e3 = [([cmp("MODE", "==", 0)], 0), ([cmp("MODE", "<=", 1)], 16), ([cmp("LEN", ">=", 0, False)], 8)]
+            for pos in (0, 5):
+                yield case(binenc(lookup(e3)), env_len(raw), pkt, pos)
+                yield case(binenc(lookup(list(reversed(e3)))), env_len(raw), pkt, pos)
             for ent in (e1, e2, list(reversed(e1))):
                 for pos in (0, 5):
                     yield case(binenc(lookup(ent)), env_len(raw), pkt, pos)
